@@ -5,4 +5,12 @@ TEXT = {
    technique="reference-model monitor (byte-slice oracle) over exhaustive small-shape enumeration + boxo-written and hand-made DAGs",
    level_text="Every generated file DAG (all chunk counts 0..w^3+w+2 for small link widths = every balanced-tree shape up to 4 levels; the default width 174 on its boundaries; size/rabin/buzhash/default chunkers; boxo balanced/trickle x raw/pb leaves x CIDv0/v1; hand-made files without blocksizes/filesize) is read back through the direct reader, Reify and both registered reifiers with AsBytes, Read loops at 7 buffer sizes, OneByte/Half readers and io.Copy, and compared byte-for-byte with the input; Seek(0,End) and the independently decoded FileSize are compared with the length. Exploration, not proof: contents beyond a few MiB are not reached.",
    note="trusts go-codec-dagpb/gogo-protobuf for the independent decode of FileSize and boxo v0.24 as writer of the reference DAGs"),
+ "C07": dict(claimed=True,
+   technique="differential monitor against the boxo reference balanced importer over exhaustive small-shape enumeration",
+   level_text="For every case of the structured file enumeration (every chunk count 0..w^3+w+2 for small widths, default width boundaries incl. 349 and 174^2+1 chunks, all chunker families, de-duplicated contents, seeded fill-in) the builder's (root CID, cumulative size) is compared with boxo balanced.Layout configured with raw leaves, CIDv1 and Maxlinks=width on the same bytes; a mismatch is localised to the first differing node. The run is inconclusive unless full-level, single-child-interior and single-child-chain shapes were all produced.",
+   note="trusts boxo v0.24 importer/helpers/chunker as the reference; CID equality covers every byte of every block"),
+ "C02": dict(claimed=True,
+   technique="reference-model monitor (Go map oracle) over built directories incl. murmur3 pre-image sets forcing every HAMT depth; exhaustive hashBits sweep via verif hook",
+   level_text="Each generated entry set (all 8 fanouts x sizes {0,1,2,3,f-1,f,f+1,2f+1,300,2000[,50000]} x 6 name families incl. hex-prefix-looking, numeric, unicode; crafted 16-byte names whose murmur3 hashes share s bits for every level s up to the last usable one, with the unresolvable ones cross-checked against boxo's refusal; sizes straddling the 262144-byte auto-shard threshold; quick builder) is built, reified and compared with a Go map: every member looked up, derived and bucket-colliding non-members must be not-found (schema.ErrNoSuchField), MapIterator and native Iterator drained and compared as multisets, Length compared. Both private hashBits helpers are swept over every (offset,width 3..10) pair against the oracle's own bit slicing.",
+   note="the library and the oracle share spaolacci/murmur3; the iteration monitor trusts go-codec-dagpb's decode of the stored blocks"),
 }
